@@ -793,9 +793,12 @@ class Model(Object):
         # from cameo ...
         self._populate_solver(pruned)
 
-    def _set_objective_coefficients(self, coefficients: Dict) -> None:
-        """Set linear coefficients on the solver's current objective."""
-        self.solver.objective.set_linear_coefficients(coefficients)
+    def _set_objective_coefficients(self, coefficients: Dict[str, float]) -> None:
+        """Set coefficients, by variable name, on the solver's current objective."""
+        self.solver.update()
+        self.solver.objective.set_linear_coefficients(
+            {self.variables[name]: coef for name, coef in coefficients.items()}
+        )
 
     def remove_reactions(
         self,
@@ -834,17 +837,19 @@ class Model(Object):
                 reverse = reaction.reverse_variable
 
                 if context:
-                    obj_coef = reaction.objective_coefficient
-
-                    if obj_coef != 0:
-                        # The objective object may have been replaced by the
-                        # time the removal is reverted: look it up then.
-                        context(
-                            partial(
-                                self._set_objective_coefficients,
-                                {forward: obj_coef, reverse: -obj_coef},
-                            )
+                    # The two coefficients are recorded separately (they are not
+                    # opposite in e.g. a pFBA objective) and are put back into the
+                    # objective that the solver holds when the removal is reverted.
+                    try:
+                        obj_coefs = self.solver.objective.get_linear_coefficients(
+                            [forward, reverse]
                         )
+                    except Exception:  # e.g. a non-linear objective
+                        obj_coefs = {}
+                    obj_coefs = {v.name: c for v, c in obj_coefs.items() if c != 0}
+
+                    if obj_coefs:
+                        context(partial(self._set_objective_coefficients, obj_coefs))
 
                     context(partial(self._populate_solver, [reaction]))
                     context(partial(setattr, reaction, "_model", self))
